@@ -135,3 +135,33 @@ func runPackReq(id string, parts []string) string {
 		return "OK " + hx.Hex(b)
 	})
 }
+
+// wedge (C01 end-to-end): arbitrary bytes on a listener, then a valid query on the same listener must be answered.
+//   <id> cfg=<cfgspec> l=<listener> mode=<frame|raw> bad=<hex> q=<hex valid query> up=reply:<hex>
+//   -> bad=<status of the malformed exchange> st=<status of the valid query> n=<responses>
+func init() { register("wedge", 4, runWedge) }
+
+func runWedge(id string, parts []string) string {
+	f := hx.Fields(parts)
+	env, err := getEnv(f["cfg"])
+	if err != nil {
+		return "HARNESS-ERROR env: " + strings.ReplaceAll(err.Error(), " ", "_")
+	}
+	bad, _ := hx.UnHex(f["bad"])
+	q, _ := hx.UnHex(f["q"])
+	l := f["l"]
+	badSt := "sent"
+	switch {
+	case l == "udp":
+		env.SendRawUDP(bad)
+	case l == "tcp" || l == "gnet":
+		badSt = env.SendRawTCP(l, bad, f["mode"] == "frame")
+	default:
+		_, badSt = env.Query(l, bad, "-", 2*time.Second, 0)
+	}
+	key := hx.QuestionKey(q)
+	env.SetBehaviour(key, parseBehaviour(f["up"]))
+	resps, st := env.Query(l, q, "-", 8*time.Second, 20*time.Millisecond)
+	env.TakeQueries(key)
+	return fmt.Sprintf("bad=%s st=%s n=%d", badSt, st, len(resps))
+}
